@@ -466,6 +466,9 @@ func freshBackedE(v ssa.Value, ownBase ssa.Value, ownField string, d int, env *p
 		if b, ok := x.Call.Value.(*ssa.Builtin); ok && b.Name() == "append" {
 			return freshBackedE(x.Call.Args[0], ownBase, ownField, d+1, env)
 		}
+		if _, ok := stdSliceOp(x); ok {
+			return freshBackedE(x.Call.Args[0], ownBase, ownField, d+1, env)
+		}
 		// a slice helper (removeAt(node.Key, i)): every value it returns, with its parameters bound to the arguments
 		if rets, ne, callee := helperReturns(x, env); rets != nil && d < 6 {
 			for _, rv := range rets {
@@ -952,6 +955,57 @@ func runGLOBAL(c *Ctx) {
 		}
 	}
 	c.OK("-", fmt.Sprintf("%d functions scanned for stores to package-level variables", n), "none outside the package initialiser", false)
+	// append / copy into storage that belongs to a package variable (path := scratch[:0]; path = append(path, x)):
+	// the write happens inside the builtin, there is no store instruction to see
+	var globalBacked func(v ssa.Value, d int) *ssa.Global
+	globalBacked = func(v ssa.Value, d int) *ssa.Global {
+		if d > 8 {
+			return nil
+		}
+		switch x := ir.ResolveCell(v).(type) {
+		case *ssa.Global:
+			return x
+		case *ssa.Slice:
+			return globalBacked(x.X, d+1)
+		case *ssa.UnOp:
+			if x.Op == token.MUL {
+				return globalBacked(x.X, d+1)
+			}
+		case *ssa.ChangeType:
+			return globalBacked(x.X, d+1)
+		case *ssa.IndexAddr:
+			return globalBacked(x.X, d+1)
+		case *ssa.FieldAddr:
+			return globalBacked(x.X, d+1)
+		case *ssa.Call:
+			if b, ok := x.Call.Value.(*ssa.Builtin); ok && b.Name() == "append" {
+				return globalBacked(x.Call.Args[0], d+1)
+			}
+		case *ssa.Phi:
+			for _, e := range x.Edges {
+				if g := globalBacked(e, d+1); g != nil {
+					return g
+				}
+			}
+		}
+		return nil
+	}
+	for _, fn := range P.Funcs {
+		for _, ci := range CallsOf(fn) {
+			call, ok := ci.(*ssa.Call)
+			if !ok {
+				continue
+			}
+			b, ok := call.Call.Value.(*ssa.Builtin)
+			if !ok || (b.Name() != "append" && b.Name() != "copy") {
+				continue
+			}
+			if g := globalBacked(call.Call.Args[0], 0); g != nil {
+				c.Violation(fn, P.InstrPos(call), b.Name()+" into storage of package variable "+g.Name(),
+					"the slice being appended to (or copied into) is carved out of a package-level variable: independent trees used from different goroutines write the same memory (a data race that corrupts each other's scratch state)")
+			}
+		}
+	}
 	// element/field writes through a loaded global pointer (e.g. crcTable[i] = …)
 	for _, fn := range P.Funcs {
 		for _, b := range fn.Blocks {
